@@ -1,0 +1,83 @@
+//go:build verif
+
+package bloomsearch
+
+// Verification hooks (build tag "verif"). Nothing here changes engine
+// behaviour: verifEvent reports that an atomic step happened, to a sink the
+// verification harness installs. Without the tag every function below is an
+// empty, inlinable stub (verif_off.go).
+
+import (
+	"context"
+	"sync"
+	"sync/atomic"
+)
+
+// VerifEvent is one hook emission. Seq is assigned under a global mutex, so
+// the sequence of events is a total order consistent with each goroutine's
+// program order.
+type VerifEvent struct {
+	Seq  int64
+	Kind string
+	A, B int64
+	S    string
+}
+
+var (
+	verifMu   sync.Mutex
+	verifSeq  int64
+	verifSink func(VerifEvent)
+	verifIDs  atomic.Int64
+)
+
+// VerifSetSink installs (or, with nil, removes) the event sink and resets the
+// sequence counter. The sink runs synchronously on the emitting goroutine,
+// under the hook mutex: it must not call back into the engine.
+func VerifSetSink(sink func(VerifEvent)) {
+	verifMu.Lock()
+	verifSink = sink
+	verifSeq = 0
+	verifMu.Unlock()
+}
+
+func verifEvent(kind string, a, b int64) { verifEventS(kind, a, b, "") }
+
+func verifEventS(kind string, a, b int64, s string) {
+	verifMu.Lock()
+	if verifSink != nil {
+		verifSeq++
+		verifSink(VerifEvent{Seq: verifSeq, Kind: kind, A: a, B: b, S: s})
+	}
+	verifMu.Unlock()
+}
+
+// verifPause is a hook point at which the harness may block the calling
+// goroutine (to make a schedule deterministic). It is called outside the hook
+// mutex.
+var verifPauseFn atomic.Pointer[func(point string, a int64)]
+
+// VerifSetPause installs (or removes) the pause callback.
+func VerifSetPause(f func(point string, a int64)) {
+	if f == nil {
+		verifPauseFn.Store(nil)
+		return
+	}
+	verifPauseFn.Store(&f)
+}
+
+func verifPause(point string, a int64) {
+	if f := verifPauseFn.Load(); f != nil {
+		(*f)(point, a)
+	}
+}
+
+// verifNextID hands out request identities for event correlation.
+func verifNextID() int64 { return verifIDs.Add(1) }
+
+// verifWrapCancel logs a cancel function's invocation before running it.
+func verifWrapCancel(name string, cancel context.CancelFunc) context.CancelFunc {
+	return func() {
+		verifEvent(name, 0, 0)
+		cancel()
+	}
+}
